@@ -37,7 +37,16 @@ public:
     static std::size_t active_value(parameter p) { return vp_active(); }
 };
 } }
-namespace tbb { using oneapi::tbb::global_control; }
+namespace oneapi { namespace tbb { namespace info {
+    /* number of cores available to the process: any value >= 1 (hardware dependent) */
+    vp_size_t vp_hw;
+    inline int default_concurrency() { return (int) vp_hw; }
+} } }
+namespace tbb { using oneapi::tbb::global_control; namespace info { using oneapi::tbb::info::default_concurrency; } }
+namespace std {
+    template<class T> const T& min(const T &a, const T &b) { return (b < a) ? b : a; }
+    template<class T> const T& max(const T &a, const T &b) { return (a < b) ? b : a; }
+}
 /* CBMC's C++ front end does not run the destructor for a delete-expression; the owning-pointer stub
    therefore ends the lifetime of the pointee explicitly (what `delete p` does in C++). */
 inline void vp_delete(oneapi::tbb::global_control *g) { g->vp_release(); }
